@@ -956,11 +956,7 @@ func (h *H) ccittCase(f pdf.FilterCCITTFax, data []byte, cols, rows int) {
 	if f.K < 0 && (cols <= 300 || cols <= 3000 && e.Rand.IntN(12) == 0) {
 		// the Coq model of T.6 coding (coq/C06/CCITT2D.v) as a second referee for Group 4 (both directions)
 		if enc, err := libEncode(f, pdf.V1_7, data); err == nil {
-			geoMax := max(1, min(1<<16, (128<<20)/cols))
-			maxRows := geoMax
-			if f.Rows > 0 && f.Rows < geoMax {
-				maxRows = f.Rows
-			}
+			maxRows := f.Rows // the model derives the limit from /Columns and /Rows itself
 			b := func(v bool) int {
 				if v {
 					return 1
@@ -975,11 +971,7 @@ func (h *H) ccittCase(f pdf.FilterCCITTFax, data []byte, cols, rows int) {
 	if f.K == 0 && (cols <= 300 || cols <= 10000 && e.Rand.IntN(4) == 0) {
 		// the Coq model of T.4 one-dimensional coding as a second referee (both directions)
 		if enc, err := libEncode(f, pdf.V1_7, data); err == nil {
-			geoMax := max(1, min(1<<16, (128<<20)/cols))
-			maxRows := geoMax
-			if f.Rows > 0 && f.Rows < geoMax {
-				maxRows = f.Rows
-			}
+			maxRows := f.Rows // the model derives the limit from /Columns and /Rows itself
 			b := func(v bool) int {
 				if v {
 					return 1
